@@ -736,6 +736,86 @@ def initial_located_case(ctx, rng, idx):
     _check_located(ctx, bottom, hdims, loc, feats, feats['posterior'])
 
 
+def initial_covariates_case(ctx, rng, idx):
+    """several covariate sub-models, each with its own covariate columns,
+    under tight priors: an individual's entry of an initial point sits at
+    mean + sum_c beta_c * (that individual's covariates of THAT sub-model),
+    within 8 population standard deviations"""
+    n_ids = int(rng.integers(2, 5))
+    seed = int(rng.integers(0, 10 ** 6))
+    cases = [GL.LLCase(rng, n_out=1, allow_empty=False,
+                       em_classes=['GaussianErrorModel'])
+             for _ in range(n_ids)]
+    lls = [c.build() for c in cases]
+    n_dim = lls[0].n_parameters()           # 3 mechanistic + 1 noise
+    # dimensions -> sub-models: 'C' (one-dimensional covariate model) or
+    # 'P' (pooled), at least two 'C', in a random order
+    n_c = int(rng.integers(2, n_dim + 1))
+    kinds = ['C'] * n_c + ['P'] * (n_dim - n_c)
+    kinds = [kinds[i] for i in rng.permutation(n_dim)]
+    subs, priors, spec, cov_cols = [], [], [], 0
+    for kd in kinds:
+        if kd == 'P':
+            subs.append(chi.PooledModel())
+            priors.append(pints.GaussianLogPrior(1.0, 0.001))
+            spec.append(None)
+            continue
+        n_cov = int(rng.integers(1, 3))
+        subs.append(chi.CovariatePopulationModel(
+            chi.GaussianModel(), chi.LinearCovariateModel(n_cov=n_cov)))
+        mean = float(rng.uniform(5, 10))
+        beta = rng.uniform(1.0, 2.0, size=n_cov) * rng.choice(
+            [-1, 1], size=n_cov)
+        # Mean, Std., then the shifts of the mean and those of the std.
+        priors.append(pints.GaussianLogPrior(mean, 0.001))
+        priors.append(pints.GaussianLogPrior(0.01, 0.0002))
+        priors += [pints.GaussianLogPrior(float(b), 0.001) for b in beta]
+        priors += [pints.GaussianLogPrior(0.0, 1e-7) for _ in beta]
+        spec.append((mean, beta, slice(cov_cols, cov_cols + n_cov)))
+        cov_cols += n_cov
+    cov = rng.uniform(-2, 2, size=(n_ids, cov_cols))
+    feats = {'family': 'initial_covariates', 'sub_models': ''.join(kinds),
+             'n_ids': n_ids, 'covariate_columns': cov_cols, 'seed': seed}
+    ctx.case(('initial_covariates', ''.join(kinds), n_ids, cov_cols), True,
+             sample=feats)
+    try:
+        hl = chi.HierarchicalLogLikelihood(
+            lls, chi.ComposedPopulationModel(subs), covariates=cov)
+        if hl.n_parameters(exclude_bottom_level=True) != len(priors):
+            ctx.reject('top-level layout differs from the assumed one')
+            return
+        post = chi.HierarchicalLogPosterior(
+            hl, pints.ComposedLogPrior(*priors))
+        pts = np.asarray(post.sample_initial_parameters(n_samples=3,
+                                                        seed=seed))
+        ids = post.get_id()
+    except Exception as e:      # noqa
+        ctx.violation_exc('posterior_setup_raises', e, feats, feats)
+        return
+    ctx.count('initial_point_sets')
+    n_bottom = sum(i is not None for i in ids)
+    if n_bottom != n_ids * n_c:
+        ctx.reject('bottom-level layout differs from the assumed one')
+        return
+    bottom = pts[:, :n_bottom].reshape(3, n_ids, n_c)
+    col = 0
+    for sp in spec:
+        if sp is None:
+            continue
+        mean, beta, sl = sp
+        want = mean + cov[:, sl] @ beta                     # (n_ids,)
+        ctx.count('located_entries', 3 * n_ids)
+        dev = np.abs(bottom[:, :, col] - want[None, :])
+        if not np.all(dev < 8 * 0.011 + 0.02):
+            ctx.violation('individual_entries_drawn_from_population_model',
+                          'initial_entry_ignores_own_covariates',
+                          {'sub-model': col, 'expected': want,
+                           'values': bottom[:, :, col],
+                           'covariates': cov}, feats)
+            return
+        col += 1
+
+
 def initial_distribution_case(ctx, rng, idx):
     """individual-level entries follow the population model at the sampled
     population values (standardised residuals pooled over many points)"""
@@ -863,6 +943,8 @@ FAMILIES = [
     Family('optimisation', optimisation_case, quick=120, thorough=2000),
     Family('initial', initial_case, quick=240, thorough=4000),
     Family('initial_located', initial_located_case, quick=200, thorough=3000),
+    Family('initial_covariates', initial_covariates_case, quick=60,
+           thorough=1500),
     Family('initial_distribution', initial_distribution_case, quick=20,
            thorough=200),
     Family('real_run', real_run_case, quick=8, thorough=40),
